@@ -173,6 +173,10 @@ NEUTRAL_ENV = {"shim_seed": 0, "clock_base": 1700000000, "clock_step": 1000, "ju
 def text_of(texts, name):
     """Grammar text by name; `gen:<seed>` names a grammar drawn from that seed (vlib/gramgen.py)."""
     if name.startswith("gen:"):
+        if "e" in name[4:]:
+            # `gen:<seed>e<edit seed>`: grammar <seed> after an edit that keeps its rule table (gramgen.edited_grammar)
+            a, b = name[4:].split("e")
+            return gramgen.edited_grammar(int(a), int(b))
         return gramgen.grammar(int(name[4:]))
     return texts[name]
 
@@ -207,7 +211,37 @@ def make_step(rng, goods, bads, texts, root_index, option_sets=None):
     return st
 
 
-def gen_run(seed, goods, bads, texts, option_sets=None):
+def insert_edits(seed, steps, option_sets):
+    """Editor-session histories (added after seeded change C20-n): one run in three also expands an *edited version* of a
+    seed-drawn grammar in the same process - same rule names, kinds and order, other bodies and another reference structure -
+    before or after the original (which is added when the history has none). Drawn from a PRNG stream of its own and applied
+    after the history is complete, so every step the history had before this pass existed is unchanged."""
+    er = C.SplitMix(seed ^ 0x0ED1750E55)
+    if not er.chance(1, 3):
+        return steps
+    steps = list(steps)
+    originals = [st for st in steps if st["name"].startswith("gen:") and "e" not in st["name"][4:]]
+    if originals and er.chance(2, 3):
+        base = dict(er.pick(originals))
+    else:
+        name = "gen:%d" % (er.next() % 1_000_000)
+        base = {"name": name, "source": "inline", "path": "", "text": gramgen.grammar(int(name[4:])), "options": list(er.pick(option_sets)),
+                "include_grammar": False, "thread": er.pick([0, 0, 1, 2, 3, 9])}
+        base.update(shape(er, "inline"))
+        steps.insert(er.below(len(steps) + 1), base)
+    for _ in range(1 + er.below(2)):
+        ed = dict(base)
+        ed["name"] = "%se%d" % (base["name"], er.below(1000))
+        a, b = ed["name"][4:].split("e")
+        ed["text"] = gramgen.edited_grammar(int(a), int(b))
+        ed["thread"] = er.pick([0, 0, 1, 2, 3, 9])
+        if er.chance(1, 3):
+            ed["options"] = list(er.pick(option_sets))
+        steps.insert(er.below(len(steps) + 1), ed)
+    return steps
+
+
+def gen_run(seed, goods, bads, texts, option_sets=None, edits=True):
     option_sets = option_sets or OPTION_SETS
     rng = C.SplitMix(seed)
     # swarm: each perturbation kind is enabled per run with its own probability
@@ -257,6 +291,8 @@ def gen_run(seed, goods, bads, texts, option_sets=None):
             steps.append(st)
         else:
             steps.append(make_step(rng, goods, bads, texts, env["root"], option_sets))
+    if edits:
+        steps = insert_edits(seed, steps, option_sets)
     return {"env": env, "scenario": {"heap_pre": heap, "steps": steps}}
 
 
@@ -491,7 +527,7 @@ def run(tier, seed):
     env_kinds = {"hash_seed_varied": 0, "clock_varied": 0, "junk_environment": 0, "manifest_root_relocated": 0, "cwd_changed": 0,
                  "well_known_variables_set": 0, "read_short_configured": 0, "read_eintr_configured": 0, "stderr_is_full_disk": 0, "stderr_is_devnull": 0, "pid_varied": 0, "cpu_count_varied": 0, "heap_ballast": 0, "non_main_thread_steps": 0, "fresh_thread_steps": 0,
                  "panicking_expansions": 0, "steps_after_a_panicking_expansion": 0, "repeated_expansions_in_one_process": 0,
-                 "generated_grammar_expansions": 0, "generated_grammar_expansions_accepted": 0}
+                 "generated_grammar_expansions": 0, "generated_grammar_expansions_accepted": 0, "edited_grammar_expansions": 0}
     distinct = set()
     steps_total = 0
     samples = []
@@ -543,6 +579,7 @@ def run(tier, seed):
                     env_kinds["fresh_thread_steps"] += st["thread"] == 9
                     env_kinds["panicking_expansions"] += digest.startswith("PANIC")
                     if st["name"].startswith("gen:"):
+                        env_kinds["edited_grammar_expansions"] += "e" in st["name"][4:]
                         env_kinds["generated_grammar_expansions"] += 1
                         env_kinds["generated_grammar_expansions_accepted"] += not digest.startswith("PANIC")
                     env_kinds["steps_after_a_panicking_expansion"] += panicked
